@@ -1411,3 +1411,80 @@ func reachFromBlockStart(fn *ssa.Function, blk *ssa.BasicBlock, isTarget func(ss
 	}
 	return ReachFromAvoiding(fn, first, isTarget, guards, barrier)
 }
+
+// cmpGuards returns guards that are passed exactly on those edges of an
+// integer comparison "x <op> const" (either operand order) that imply pred(x).
+// pred must be a threshold predicate (monotone in x); implication is decided
+// by evaluating the comparison on sample points around the constant and the
+// thresholds given in probes.
+func cmpGuards(name string, isX func(ssa.Value) bool, pred func(int64) bool, probes ...int64) []Guard {
+	holds := func(op token.Token, a, b int64) bool {
+		switch op {
+		case token.LSS:
+			return a < b
+		case token.LEQ:
+			return a <= b
+		case token.GTR:
+			return a > b
+		case token.GEQ:
+			return a >= b
+		case token.EQL:
+			return a == b
+		case token.NEQ:
+			return a != b
+		}
+		return false
+	}
+	mk := func(truthy bool) Guard {
+		return Guard{Name: name, Truthy: truthy, Match: func(b ssa.Value) bool {
+			bo, ok := b.(*ssa.BinOp)
+			if !ok {
+				return false
+			}
+			var cst int64
+			xLeft := false
+			if isX(bo.X) {
+				v, isC := constInt(bo.Y)
+				if !isC {
+					return false
+				}
+				cst, xLeft = v, true
+			} else if isX(bo.Y) {
+				v, isC := constInt(bo.X)
+				if !isC {
+					return false
+				}
+				cst = v
+			} else {
+				return false
+			}
+			switch bo.Op {
+			case token.LSS, token.LEQ, token.GTR, token.GEQ, token.EQL, token.NEQ:
+			default:
+				return false
+			}
+			samples := []int64{cst - 2, cst - 1, cst, cst + 1, cst + 2}
+			for _, p := range probes {
+				samples = append(samples, p-1, p, p+1)
+			}
+			any := false
+			for _, x := range samples {
+				var taken bool
+				if xLeft {
+					taken = holds(bo.Op, x, cst)
+				} else {
+					taken = holds(bo.Op, cst, x)
+				}
+				if taken != truthy {
+					continue // this sample does not take the edge
+				}
+				any = true
+				if !pred(x) {
+					return false
+				}
+			}
+			return any
+		}}
+	}
+	return []Guard{mk(true), mk(false)}
+}
